@@ -418,6 +418,8 @@ fn run_history(rng: &mut Rng, mode: &str, _k: usize) -> String {
     let mut force_pub: Option<usize> = None;
     let mut force_tick: Option<(u64, u64)> = None;
     let mut force_clear: Option<bool> = None;
+    // does the next tick cancel because of the matcher's state (first tick, first tick after a restart)?
+    let mut state_cancels = true;
     for _ in 0..(nops + script.len()) {
         let nf0 = h.notify.load(Ordering::SeqCst);
         let run_parked = h.gates.parked.load(Ordering::SeqCst);
@@ -606,7 +608,12 @@ fn run_history(rng: &mut Rng, mode: &str, _k: usize) -> String {
                 eprintln!("EV-START tick hold={hold}");
                 h.gates.want_hold.store(hold != 0, Ordering::SeqCst);
                 let spawned_before = h.gates.spawned.load(Ordering::SeqCst);
-                let st = h.nucleo.tick(if hold != 0 || run_parked { 15 } else { 3000 });
+                // the timeout only matters when the lock cannot be had: a holding tick, or a non-cancelling tick on a run that
+                // is parked (it can never get the lock).  A cancelling tick lets a parked run go and then waits for the run
+                // it spawned itself, which must be given the time to finish whatever the load on the machine is.
+                let cancels = state_cancels || nucleo::verif::pattern_status(&h.nucleo.pattern) != 0;
+                state_cancels = false;
+                let st = h.nucleo.tick(if hold != 0 || (run_parked && !cancels) { 15 } else { 3000 });
                 h.gates.want_hold.store(false, Ordering::SeqCst);
                 // a run spawned with a hold flag that has not reached its gate yet: wait until it parks (a tick that spawned
                 // nothing -- its lock attempt timed out on a run parked earlier -- has nothing to wait for)
@@ -633,6 +640,7 @@ fn run_history(rng: &mut Rng, mode: &str, _k: usize) -> String {
             18 => {
                 let clear = force_clear.take().unwrap_or_else(|| rng.chance(1, 2));
                 h.nucleo.restart(clear);
+                state_cancels = true;
                 h.generation += 1;
                 h.record(format!("restart:{}", clear as u8), nf0, true);
             }
